@@ -814,7 +814,8 @@ class CompositeEnvelope:
             state_objs.extend(ce.state_objs)
             if ce_container is None:
                 ce_container = CompositeEnvelope._containers[ce.uid]
-            else:
+            elif CompositeEnvelope._containers[ce.uid] is not ce_container:
+                # Handles which already share the container have nothing to add
                 ce_container.append_states(CompositeEnvelope._containers[ce.uid])
             ce.uid = self.uid
         if ce_container is None:
